@@ -196,6 +196,8 @@ def oracle_case(ctx, orng, x, src, curve, kv, kd, check_vals, check_degs):
 
 
 ESCALATION_SHAPES = [
+    "template T() { signal input in[5]; signal output out[5]; var table[5] = [3, 1, 4, 1, 5]; var state = 0; for (var i = 0; i < 5; i++) { out[i] <-- table[state]; state = in[i]; } }",
+    "template T(n) { signal input in[3]; signal output out; var t[3]; for (var i = 0; i < n; i++) { t[i] = in[i] * in[i] * in[i]; } t[0] = 1; out <-- t[1]; }",
     "template T(n) { signal input a; signal output b[n]; var acc = 1; for (var i = 0; i < n; i++) { b[i] <-- acc; acc = acc * a; } }",
     "template T(n) { signal input a; signal output b; var acc = 1; var k = 0; while (k < n) { acc = acc * a; k += 1; } b <-- acc; }",
     "template T(n) { signal input a; signal output b; var acc = a; for (var i = 0; i < n; i++) { for (var j = 0; j < 2; j++) { acc = acc + acc * a; } } b <-- acc; }",
